@@ -34,6 +34,9 @@ PROPS = {
                 quick=dict(runs=20000, wall=300, chunk=200), thorough=dict(runs=700000, wall=1800, chunk=1000),
                 assumptions=COMMON_ASSUME + ["threshold decisions are judged only when the float64 prediction is farther than 1e-3 (scaled) from the threshold; others counted undecided",
                                              "refractory periods that are integer multiples of a non-dyadic dt (other than 1x, 2x) are not generated: the float32 countdown may legitimately last one step longer"]),
+    "C04": dict(world="synapse_world", level="exploration",
+                quick=dict(runs=8000, wall=300, chunk=100), thorough=dict(runs=300000, wall=1800, chunk=1000),
+                assumptions=COMMON_ASSUME + ["selectors within a float32 rounding margin of a grid point / tolerance boundary accept either the on-grid or the interpolated value (counted by a probe)"]),
     "C07": dict(world="reducer_world", level="exploration",
                 quick=dict(runs=20000, wall=240, chunk=500), thorough=dict(runs=800000, wall=1500, chunk=4000),
                 assumptions=COMMON_ASSUME + ["continuous values compared with |a-b| <= 2e-5 + 2e-4|b|; view times within max(4 tol, 0.05 dt) of the grid but outside tol are not judged"]),
